@@ -53,9 +53,9 @@ template <class D> inline void drop_named(ClassAdapter<D>& A, const std::vector<
 inline std::vector<std::string> lite_unary() {
   const char* k[] = { "refine_with_constraint(A>=0)", "refine_with_constraint(A+B<=2)", "refine_with_constraint(0>=1)", "add_constraint(A==1)",
     "add_constraints(", "refine_with_congruence(A=0 mod 2)", "add_congruence(A=1)", "unconstrain(A)", "affine_image(A,B)", "affine_image(B,2A-B+1,2)",
-    "affine_preimage(A,A+B)", "generalized_affine_image(A+B,>=,2)", "bounded_affine_image(", "add_space_dimensions_and_embed(1)",
-    "remove_higher_space_dimensions(1)", "expand_space_dimension(", "fold_space_dimensions(", "topological_closure_assign()",
-    "minimized_constraints()", "congruences()", "is_empty()", "is_universe()", "is_bounded()", "maximize(", "OK()",
+    "affine_preimage(A,A+B)", "add_space_dimensions_and_embed(1)",
+    "remove_higher_space_dimensions(1)", "fold_space_dimensions(", "topological_closure_assign()",
+    "minimized_constraints()", "congruences()", "is_empty()", "is_universe()", "maximize(", "OK()",
     "add_generator(p(3,0))", "add_generator(r(0,1))", "add_generators(", "add_recycled_generators(", "add_recycled_constraints(", "generators()", "minimized_generators()",
     "add_grid_generator(p(1,1)/3)", "add_grid_generator(q(2,0))", "minimized_grid_generators()", "grid_generators()",
     "add_disjunct(", "omega_reduce()", "pairwise_reduce()", "collapse()" };
@@ -91,25 +91,29 @@ template <class D> inline bool widen_pre(D& d, const D* a) { return d.space_dime
 
 // ---------------------------------------------------------------------------------------------------------
 // two expression arguments bound to one object (every domain)
+// `light': the reduced selection used for powersets and products (the operation is applied disjunct by disjunct /
+// component by component to code that the simple domains explore in full)
 template <class D>
-inline void add_same_expression_ops(ClassAdapter<D>& A) {
+inline void add_same_expression_ops(ClassAdapter<D>& A, bool light = false) {
   Variable x(0), y(1);
   struct E { const char* n; Linear_Expression e; };
   std::vector<E> es; { E e1 = {"B+1", y + 1}, e2 = {"A+B", x + y}, e3 = {"2A", 2 * x}, e4 = {"3", Linear_Expression(3)}; es.push_back(e1); es.push_back(e2); es.push_back(e3); es.push_back(e4); }
   for (size_t i = 0; i < es.size(); ++i) {
+    if (light && i >= 2) break;
     Linear_Expression e = es[i].e; std::string n = es[i].n;
     alias_pair(A, "bounded_affine_image(A," + n + "," + n + ")", false, [x, e](D& d, const D*, bool al) {
       if (al) d.bounded_affine_image(x, e, e); else { Linear_Expression e2(e); d.bounded_affine_image(x, e, e2); } return std::string(); });
-    if (i < 2) alias_pair(A, "bounded_affine_preimage(A," + n + "," + n + ")", false, [x, e](D& d, const D*, bool al) {
+    if (i < 2 && !light) alias_pair(A, "bounded_affine_preimage(A," + n + "," + n + ")", false, [x, e](D& d, const D*, bool al) {
       if (al) d.bounded_affine_preimage(x, e, e); else { Linear_Expression e2(e); d.bounded_affine_preimage(x, e, e2); } return std::string(); });
     struct R { const char* n; PPL::Relation_Symbol r; bool strict; };
     const R rs[3] = { {"<=", PPL::LESS_OR_EQUAL, false}, {"==", PPL::EQUAL, false}, {">", PPL::GREATER_THAN, true} };
     for (int k = 0; k < 3; ++k) {
       if (rs[k].strict && !DomTraits<D>::strict) continue;
+      if (light && (i != 1 || k == 2)) continue;
       PPL::Relation_Symbol r = rs[k].r;
       alias_pair(A, "generalized_affine_image(" + n + "," + rs[k].n + "," + n + ")", false, [e, r](D& d, const D*, bool al) {
         if (al) d.generalized_affine_image(e, r, e); else { Linear_Expression e2(e); d.generalized_affine_image(e, r, e2); } return std::string(); });
-      if (i == 1 || i == 2) alias_pair(A, "generalized_affine_preimage(" + n + "," + rs[k].n + "," + n + ")", false, [e, r](D& d, const D*, bool al) {
+      if ((i == 1 || i == 2) && !light) alias_pair(A, "generalized_affine_preimage(" + n + "," + rs[k].n + "," + n + ")", false, [e, r](D& d, const D*, bool al) {
         if (al) d.generalized_affine_preimage(e, r, e); else { Linear_Expression e2(e); d.generalized_affine_preimage(e, r, e2); } return std::string(); });
     }
   }
@@ -166,7 +170,7 @@ template <class SYS> inline std::string donor_afterlife(SYS& donor, const SYS& f
 
 template <class D, class SYS, class GET, class REC, class CPY>
 inline void add_recycle_ops(ClassAdapter<D>& A, const std::string& entry, const std::string& src, GET get, REC rec, CPY cpy, const SYS& fresh) {
-  for (int how = 1; how < 3; ++how) {
+  for (int how = 1; how < 2; ++how) {       // (the swap-with-fresh afterlife is explored on the systems themselves, group 12)
     static const char* hn[3] = {"destroy", "assign-to", "swap-with-fresh"};
     alias_pair(A, entry + "(donor=" + src + ";then " + hn[how] + " donor)", true, [get, rec, cpy, fresh, how](D& d, const D* a, bool real) {
       SYS donor(get(*a));
@@ -179,40 +183,46 @@ inline void add_recycle_ops(ClassAdapter<D>& A, const std::string& entry, const 
   alias_pair(A, entry + "(on a temporary copy of the receiver that is destroyed before the donor;donor=" + src + ")", true, [get, rec, cpy, fresh](D& d, const D* a, bool real) {
     SYS donor(get(*a));
     if (!real) { cpy(d, donor); return std::string("donor-ok"); }
-    { D tmp(d); rec(tmp, donor); }
+    { D tmp(d); try { rec(tmp, donor); } catch (const std::exception&) {} }      // a rejected call still leaves the donor destructible / assignable
     std::string r = donor_afterlife(donor, fresh, 1);
     SYS donor2(get(*a)); rec(d, donor2);
     return r; }, "[recycle]");
 }
 
+// `same_as_copying': the reference side uses the copying entry point add_constraints / add_congruences (simple
+// domains: the recycling entry point is documented to differ only in what happens to the argument).  For the
+// products the two entry points treat the components differently (one component is refined, not added to), so
+// the reference side uses the recycling entry point on a donor that is simply destroyed.
 template <class D>
-inline void add_recycle_constraint_ops(ClassAdapter<D>& A) {
+inline void add_recycle_constraint_ops(ClassAdapter<D>& A, bool same_as_copying = true) {
   Variable x(0), y(1);
   Constraint_System fresh; fresh.insert(x + y >= 7); fresh.insert(x == 3);
   add_recycle_ops<D, Constraint_System>(A, "add_recycled_constraints", "arg.constraints()",
     [](const D& a) { return Constraint_System(a.constraints()); },
-    [](D& d, Constraint_System& s) { d.add_recycled_constraints(s); }, [](D& d, const Constraint_System& s) { d.add_constraints(s); }, fresh);
+    [](D& d, Constraint_System& s) { d.add_recycled_constraints(s); },
+    [same_as_copying](D& d, const Constraint_System& s) { if (same_as_copying) d.add_constraints(s); else { Constraint_System t(s); d.add_recycled_constraints(t); } }, fresh);
   Congruence_System cfresh; cfresh.insert((x + y %= 1) / 5); cfresh.insert(x == 3);
   add_recycle_ops<D, Congruence_System>(A, "add_recycled_congruences", "arg.congruences()",
     [](const D& a) { return Congruence_System(a.congruences()); },
-    [](D& d, Congruence_System& s) { d.add_recycled_congruences(s); }, [](D& d, const Congruence_System& s) { d.add_congruences(s); }, cfresh);
+    [](D& d, Congruence_System& s) { d.add_recycled_congruences(s); },
+    [same_as_copying](D& d, const Congruence_System& s) { if (same_as_copying) d.add_congruences(s); else { Congruence_System t(s); d.add_recycled_congruences(t); } }, cfresh);
 }
 
 // ---- limited extrapolations: (y, cs) with y == receiver and / or cs == the receiver's own constraints
 template <class D, class F>
-inline void add_limited(ClassAdapter<D>& A, const std::string& nm, F f) {
+inline void add_limited(ClassAdapter<D>& A, const std::string& nm, F f, bool all_forms = true) {
   typedef Mut<D> M;
-  A.muts.push_back(M(nm + "(arg,arg.constraints())", true, [f](D& d, const D* a) { if (!widen_pre(d, a)) return std::string("skipped"); f(d, *a, a->constraints(), (unsigned*)0); return std::string(); }));
+  if (all_forms) A.muts.push_back(M(nm + "(arg,arg.constraints())", true, [f](D& d, const D* a) { if (!widen_pre(d, a)) return std::string("skipped"); f(d, *a, a->constraints(), (unsigned*)0); return std::string(); }));
   alias_pair(A, nm + "(arg,receiver.constraints())", true, [f](D& d, const D* a, bool al) {
     if (!widen_pre(d, a)) return std::string("skipped");
     if (al) f(d, *a, d.constraints(), (unsigned*)0); else { Constraint_System cs(d.constraints()); f(d, *a, cs, (unsigned*)0); }
     return std::string(); });
-  A.muts.push_back(M(nm + "(arg,arg.minimized_constraints(),tokens=1)", true, [f](D& d, const D* a) { if (!widen_pre(d, a)) return std::string("skipped"); unsigned t = 1; f(d, *a, a->minimized_constraints(), &t); return std::to_string(t); }));
+  if (all_forms) A.muts.push_back(M(nm + "(arg,arg.minimized_constraints(),tokens=1)", true, [f](D& d, const D* a) { if (!widen_pre(d, a)) return std::string("skipped"); unsigned t = 1; f(d, *a, a->minimized_constraints(), &t); return std::to_string(t); }));
 }
 template <class D, class F>
-inline void add_widening(ClassAdapter<D>& A, const std::string& nm, F f) {
+inline void add_widening(ClassAdapter<D>& A, const std::string& nm, F f, bool plain = true) {
   typedef Mut<D> M;
-  A.muts.push_back(M(nm + "(arg)", true, [f](D& d, const D* a) { if (!widen_pre(d, a)) return std::string("skipped"); f(d, *a, (unsigned*)0); return std::string(); }));
+  if (plain) A.muts.push_back(M(nm + "(arg)", true, [f](D& d, const D* a) { if (!widen_pre(d, a)) return std::string("skipped"); f(d, *a, (unsigned*)0); return std::string(); }));
   A.muts.push_back(M(nm + "(arg,tokens=2)", true, [f](D& d, const D* a) { if (!widen_pre(d, a)) return std::string("skipped"); unsigned t = 2; f(d, *a, &t); return std::to_string(t); }));
 }
 
@@ -255,12 +265,13 @@ inline void add_domain_specific(ClassAdapter<PH>& A, const PPL::Polyhedron*) {
   add_recycle_ops<D, Generator_System>(A, "add_recycled_generators", "arg.generators()",
     [](const D& a) { return Generator_System(a.generators()); },
     [](D& d, Generator_System& s) { d.add_recycled_generators(s); }, [](D& d, const Generator_System& s) { d.add_generators(s); }, fresh);
-  add_widening(A, "H79_widening_assign", [](D& d, const D& a, unsigned* t) { d.H79_widening_assign(a, t); });
-  add_widening(A, "BHRZ03_widening_assign", [](D& d, const D& a, unsigned* t) { d.BHRZ03_widening_assign(a, t); });
+  // (the plain forms are explored by groups 1 and 2)
+  add_widening(A, "H79_widening_assign", [](D& d, const D& a, unsigned* t) { d.H79_widening_assign(a, t); }, false);
+  add_widening(A, "BHRZ03_widening_assign", [](D& d, const D& a, unsigned* t) { d.BHRZ03_widening_assign(a, t); }, false);
   add_limited(A, "limited_H79_extrapolation_assign", [](D& d, const D& a, const Constraint_System& cs, unsigned* t) { d.limited_H79_extrapolation_assign(a, cs, t); });
   add_limited(A, "limited_BHRZ03_extrapolation_assign", [](D& d, const D& a, const Constraint_System& cs, unsigned* t) { d.limited_BHRZ03_extrapolation_assign(a, cs, t); });
-  add_limited(A, "bounded_H79_extrapolation_assign", [](D& d, const D& a, const Constraint_System& cs, unsigned* t) { d.bounded_H79_extrapolation_assign(a, cs, t); });
-  add_limited(A, "bounded_BHRZ03_extrapolation_assign", [](D& d, const D& a, const Constraint_System& cs, unsigned* t) { d.bounded_BHRZ03_extrapolation_assign(a, cs, t); });
+  add_limited(A, "bounded_H79_extrapolation_assign", [](D& d, const D& a, const Constraint_System& cs, unsigned* t) { d.bounded_H79_extrapolation_assign(a, cs, t); }, false);
+  add_limited(A, "bounded_BHRZ03_extrapolation_assign", [](D& d, const D& a, const Constraint_System& cs, unsigned* t) { d.bounded_BHRZ03_extrapolation_assign(a, cs, t); }, false);
   A.muts.push_back(M("positive_time_elapse_assign", true, [](D& d, const D* a) { d.positive_time_elapse_assign(*a); return std::string(); }));
   A.muts.push_back(M("poly_hull_assign", true, [](D& d, const D* a) { d.poly_hull_assign(*a); return std::string(); }));
 }
@@ -394,7 +405,7 @@ inline void add_powerset_extras(ClassAdapter<PPL::Pointset_Powerset<P> >& A) {
     D* d = new D(2, PPL::EMPTY);
     for (int k = 0; k < 3; ++k) { P a(2); a.refine_with_constraint(x >= k); a.refine_with_constraint(x <= k + 2); a.refine_with_constraint(y >= 0); a.refine_with_constraint(y <= 1 + k % 2); d->add_disjunct(a); }
     d->omega_reduce(); return d; })));
-  add_same_expression_ops(A);
+  add_same_expression_ops(A, true);
   A.muts.push_back(M("BGP99_extrapolation_assign(arg,widening,2)", true, [](D& d, const D* a) { if (d.space_dimension() != a->space_dimension() || (a != &d && !a->definitely_entails(d))) return std::string("skipped"); ps_bgp99(d, *a); return std::string(); }));
   A.muts.push_back(M("BHZ03_widening_assign(arg,widening)", true, [](D& d, const D* a) { if (d.space_dimension() != a->space_dimension() || (a != &d && !a->definitely_entails(d))) return std::string("skipped"); ps_bhz03(d, *a); return std::string(); }));
   alias_pair(A, "add_disjunct(last of own disjuncts)", false, [](D& d, const D*, bool al) {
@@ -435,9 +446,9 @@ inline ClassAdapter<PPL::Pointset_Powerset<P> > powerset_alias_adapter(const std
 template <class D>
 inline void add_product_extras(ClassAdapter<D>& A) {
   typedef Mut<D> M;
-  add_same_expression_ops(A);
+  add_same_expression_ops(A, true);
   add_into_receiver_ops(A);
-  add_recycle_constraint_ops(A);
+  add_recycle_constraint_ops(A, false);
   add_widening(A, "widening_assign", [](D& d, const D& a, unsigned* t) { d.widening_assign(a, t); });
   A.muts.push_back(M("upper_bound_assign_if_exact", true, [](D& d, const D* a) { return b2s(d.upper_bound_assign_if_exact(*a)); }));
   A.muts.push_back(M("assign(D(arg.domain1()))", true, [](D& d, const D* a) { d = D(a->domain1()); return std::string(); }));
